@@ -573,6 +573,9 @@ def run(ctx, chk):
     r6_no_final(ctx, chk)
     r4_placement(ctx, chk)
     r5_batch_runner(ctx, chk)
+    # "at any position, in every game": whether a description is rejected must not depend on what was validated before
+    from . import C10
+    C10.r2_no_carried_state(ctx, chk, "C09.pre:C10.2")
     chk.require_instances("C09.1", 4)
     chk.require_instances("C09.4", 6)
     chk.require_instances("C09.5", 2)
